@@ -8,7 +8,7 @@ Nothing here touches /repo's working tree or /verif's evidence: the checks run f
 import os, sys, json, shutil, subprocess, glob
 from concurrent.futures import ThreadPoolExecutor
 VERIF = os.path.dirname(os.path.dirname(os.path.abspath(__file__)))
-ROUNDS = [('/tmp/seed/out', '/root/seedtools/confirm', 'ab'), ('/tmp/seed2/out', '/root/seedtools/confirm2', 'c')]
+ROUNDS = [('/tmp/seed/out', '/root/seedtools/confirm', 'ab'), ('/tmp/seed2/out', '/root/seedtools/confirm2', 'c'), ('/tmp/seed3/out', '/root/seedtools/confirm4', 'de')]
 REBASED = '/var/tmp/preseed'        # patches re-based by hand onto the repaired tree live here (see meta.json: rebased_onto)
 EXTRA = {'C01': ['C05', 'C03'], 'C02': ['C08'], 'C03': ['C08', 'C04'], 'C04': ['C03'], 'C06': ['C03', 'C07'], 'C07': ['C06', 'C01'], 'C08': ['C03'], 'C09': ['C03'], 'C10': [], 'C11': [], 'C12': ['C08'],
          'C13': ['C14'], 'C14': ['C13'], 'C15': ['C13'], 'C16': ['C13'], 'C17': [], 'C05': ['C01']}
@@ -17,6 +17,8 @@ NOTES = {
     'C11-a': {'dropped': 'the same change as C13-a; as a C11 violation it exists only through defect D5 itself (repaired by 17ce2e9): with the fix reverted C11 alarms with or without the seed, so it discriminates nothing'},
     'C10-b': {'rebased_onto': 'the repaired tree: the normalisation of preserve_locals/preserve_globals had been rewritten by fix 17ce2e9; the seeded helper _name_list() was re-applied by hand on top of it'},
     'C16-a': {'rebased_onto': 'the repaired tree: the shebang regex had been changed by fix 10b82d1; the seeded .decode(\'latin-1\') was re-applied by hand'},
+    'C03-e': {'rebased_onto': 'the repaired tree: fix 0cf6ced inserted the module-level taint test at the top of get_binding; the seeded reordering (nonlocal_names tested before global_names) was re-applied by hand below it', 'rebased_confirm': '/root/seedtools/confirm4'},
+    'C09-e': {'dropped': 'moves the taint test of get_binding into a post-pass; it conflicts with fix 0cf6ced (D22) which rewrote the same lines, and on its own base the repaired defect D22 already makes the strengthened C09 check alarm, so it discriminates nothing'},
     'C12-b': {'rebased_onto': 'the repaired tree: PEP 701 support for f_string.Bytes was added by fix commits 06cc3a4/9762545; the seeded defect (no escape for the backslash byte) was re-created by deleting that branch'},
 }
 
@@ -107,7 +109,7 @@ def main():
                 log = os.path.join(conf, name + '.log')
                 txt = open(log).read() if os.path.exists(log) else ''
                 if 'rebased_onto' in note:
-                    rl = os.path.join('/root/seedtools/confirm3', name + '.log')
+                    rl = os.path.join(note.get('rebased_confirm', '/root/seedtools/confirm3'), name + '.log')
                     txt = open(rl).read() if os.path.exists(rl) else ''
                 if not ('ALL STABLE TESTS PASS' in txt or 'BROKEN TESTS' in txt):
                     print(name, 'confirmation not finished')
@@ -129,6 +131,8 @@ def main():
                     print(name, 'NOT CONFIRMED')
                     continue
                 jobs.append(name)
+    if os.environ.get('SEED_ONLY_NEW'):
+        jobs = [j for j in jobs if not os.path.exists(os.path.join(VERIF, 'seeded', j, 'results.json')) or 'not_run' in open(os.path.join(VERIF, 'seeded', j, 'results.json')).read()]
     print('evaluating', len(jobs), 'seeds')
 
     def run(ix_name):
